@@ -569,7 +569,7 @@ fn fnv(bytes: &[u8]) -> u64 {
     h
 }
 
-const WATCHDOG: Duration = Duration::from_secs(90);
+const WATCHDOG: Duration = Duration::from_secs(30);
 
 fn run_one(spec: &Value) -> Value {
     let run = spec["run"].clone();
